@@ -2,6 +2,7 @@
 Decided: traversal completeness of the instrumenting visitors (all paths of all overrides), the
 dispatch of the five transforms, the block driver, the arrow-body normalisation and the receiver
 table.  Not decided: that each transform, once reached, emits a hook for every operand shape."""
+import re
 from .. import hir
 from ..engine import AnchorMissing
 from ..trav import AdtGraph, Traversal, overrides_of, core_type
@@ -162,6 +163,11 @@ def rule_dispatch(check):
                 premises += BF.from_conds(g_in, g_in.conds_at(n_in), dispatch_atomize, prog)
             gate_f = _gate_formula(GATES[name][1])
             key = "%s/%s" % (R, name)
+            if name == "to_dd_call_expr" and not BF.entails(premises, BF.atom("callee.expr")) and _callee_kind_checked_inside(prog):
+                # the caller's `callee.is_expr()` test is redundant when the transform itself takes the callee
+                # apart and answers not-modified for `super(..)` / `import(..)` before doing anything else
+                gate_f = [g for g in gate_f if not BF.entails([BF.atom("callee.expr")], g) or BF.entails([], g)] or gate_f
+                gate_f = [g for g in gate_f if BF.show(g) != "callee.expr"]
             sound = all(BF.entails(premises, g) for g in gate_f)
             complete = all(BF.entails(gate_f, p_) for p_ in premises)
             if not BF.entails(premises, gate_f[0]):
@@ -608,6 +614,27 @@ def rule_receiver_table(check):
     check.expect(len(contains) == 1 and hir.peel(h.body) is contains[0], R, R + "/allows-literal", hir.loc(h.rec), "method_allows_literal_callers = membership in the set", "method_allows_literal_callers is not a plain membership test")
 
 
+def _callee_kind_checked_inside(prog):
+    """does to_dd_call_expr itself branch on the kind of callee first: a match on `<call>.callee` whose
+    `Callee::Expr` arm does the work and whose other arm(s) answer None / not_modified?"""
+    t = prog.fn_opt("CallExprTransform::to_dd_call_expr")
+    if t is None:
+        return False
+    for m in hir.walk(t.body):
+        if m.get("k") != "Match" or not (hir.place(hir.peel_transparent(m["scrut"])) or "").endswith(".callee"):
+            continue
+        kinds = [str(hir.pat_variant(a["pat"])).split("::")[-1] for a in m["arms"]]
+        if "Expr" not in kinds:
+            continue
+        others = [a for a, k_ in zip(m["arms"], kinds) if k_ != "Expr"]
+        quiet = others and all(not any(hir.is_call(x) and (hir.callee_name(x) or x.get("method")) not in ("not_modified", None) for x in hir.walk(a["body"])) for a in others)
+        # nothing with an effect happens before the match
+        first_effect = [x for x in t.nodes() if hir.is_call(x) and x["id"] < m["id"] and (hir.callee_name(x) or x.get("method")) in ("push", "get_ident_used_in_assignation", "get_temporal_ident_used_in_assignation", "next_ident")]
+        if quiet and not first_effect:
+            return True
+    return False
+
+
 def rule_optchain_shape(check):
     R = "OPTCHAIN-SHAPE"
     check.rule(R, "the optional-chain lowering starts for exactly `recv?.m(..)`: a non-optional call link whose callee is an optional member link with an identifier property naming a configured method - and under no further condition")
@@ -744,6 +771,35 @@ def rule_literal_skip(check):
                         ok = ok and nm_ == "arguments"
         else:
             ok = ok and nm_ == "arguments"
+    if not ok and dec_sites:
+        # by place instead of by name: what the decision iterates is the very collection that is handed to
+        # the hook builder as the reported arguments (a field of a struct that groups the accumulators, seen
+        # through `self` of a predicate method)
+        def caller_place(fn_, e_, depth=0):
+            e_ = hir.peel_transparent(e_)
+            pl = hir.place(e_, transparent=True) or ""
+            root = pl.split(".")[0]
+            lid = int(root.split("#")[1]) if "#" in root and root.split("#")[1].isdigit() else None
+            b_ = fn_.bindings().get(lid) if lid is not None else None
+            if b_ and b_["origin"][0] == "param" and depth < 3:
+                outs = set()
+                for cf in fl:
+                    for cn in hir.calls_in(cf.body):
+                        if prog.resolve_local(cn) is fn_ and len(hir.call_args(cn)) > b_["origin"][1]:
+                            base = caller_place(cf, hir.call_args(cn)[b_["origin"][1]], depth + 1)
+                            outs.add((base + pl[len(root):]) if base else None)
+                return outs.pop() if len(outs) == 1 else None
+            return re.sub(r"#\d+", "", pl) if pl else None
+
+        hb = [(cf, cn) for cf in fl for cn in hir.calls_in(cf.body, name="get_dd_paren_expr")]
+        reported = {caller_place(cf, hir.call_args(cn)[1]) for cf, cn in hb if len(hir.call_args(cn)) > 1}
+        srcs = set()
+        for fn_, e_, src_ in dec_sites:
+            root = hir.peel(src_["recv"]) if src_.get("k") == "MethodCall" else src_
+            while hir.peel(root).get("k") == "MethodCall":
+                root = hir.peel(root)["recv"]
+            srcs.add(caller_place(fn_, root))
+        ok = bool(srcs) and None not in srcs and srcs == reported and len(reported) == 1
     g = dec_sites[0][0] if dec_sites else entry
     check.expect(bool(ok), R, R + "/decision-input", hir.loc(g.rec), "decision = must_replace_binary_expression(arguments)", "the decision to instrument `+` is not taken from the reported arguments")
     h = prog.fn("binary_add_transform::must_replace_binary_expression")
